@@ -252,12 +252,23 @@ func c08Self(leg string, input string, tmo time.Duration) (string, error) {
 	}
 }
 
-// c08.fresh: line = workspace base directory; prints the view of a server freshly initialised on <base>/w
+// c08.fresh: line = "<workspace base directory> [<letters of the open documents outside the workspace>]"; prints the view
+// of a server freshly initialised on <base>/w and then told (didOpen with the disk text) about those documents, as a
+// client does after a server restart
 func c08Fresh(line string) string {
-	base := strings.TrimSpace(line)
+	fs := strings.Fields(line)
+	base := fs[0]
 	e := c08NewEnv(base)
 	e.srv = c08Start()
 	e.srv.initialize(filepath.Join(base, "w"), filepath.Join(base, "x"))
+	if len(fs) > 1 {
+		for i := 0; i < len(fs[1]); i++ {
+			f := c08Fid(fs[1][i])
+			if data, err := os.ReadFile(e.paths[f]); err == nil {
+				e.srv.didOpen(e.paths[f], string(data))
+			}
+		}
+	}
 	return e.view()
 }
 
@@ -279,7 +290,17 @@ func c08One(line string) string {
 		if mode == "N" || (mode == "E" && !last) || len(e.dirty) > 0 {
 			return ""
 		}
-		r, err := c08Self("c08.fresh", base, 60*time.Second)
+		arg := base
+		open := ""
+		for i := range c08Names {
+			if _, ok := e.buf[i]; ok && !c08Inside(i) {
+				open += c08Names[i]
+			}
+		}
+		if open != "" {
+			arg += " " + open
+		}
+		r, err := c08Self("c08.fresh", arg, 60*time.Second)
 		if err != nil {
 			return "~ERR"
 		}
